@@ -741,7 +741,7 @@ func RunC06Pages(ctx *core.Ctx) {
 			return c06PGenBig(r, id, "default", []int{70000 + r.Intn(4000)}, false, false)
 		}})
 	}
-	nsmall := ctx.Scale(1200, 30000)
+	nsmall := ctx.Scale(800, 30000)
 	const chunk = 50
 	for i := 0; i < nsmall; i += chunk {
 		i := i
